@@ -878,6 +878,22 @@ impl World {
     // ------------------------------------------------------------ forged datagrams (C03)
     /// Concrete datagrams for the abstract forged record `f` aimed at endpoint `e`
     /// (built with the library's own writer; `variant` selects a mutation).
+    /// Bytes of a token name; "near-*" names are derived from the token endpoint `e` insists on.
+    fn tok_for(&self, e: usize, name: &str) -> Option<[u8; 4]> {
+        if let Some(kind) = name.strip_prefix("near-") {
+            let p = self.proj_ep(e);
+            let agreed = if self.mode.v7 { p["own"].as_str().unwrap_or("") } else { p["tok"].as_str().unwrap_or("") };
+            let t = tok_bytes(agreed).unwrap_or([0x54, 0x11, 0x22, 0x33]);
+            return Some(match kind {
+                "bit" => [t[0] ^ 1, t[1], t[2], t[3]],
+                "xor" => [t[0] ^ 1, t[1] ^ 1, t[2], t[3]],
+                "swap" => [t[1], t[0], t[2], t[3]],
+                _ => [t[1], t[2], t[3], t[0]],
+            });
+        }
+        tok_bytes(name)
+    }
+
     pub fn forge_bytes(&self, e: usize, f: &Value) -> Vec<u8> {
         let from = 1 - e;
         let mut buf = [0u8; 2048];
@@ -905,8 +921,8 @@ impl World {
         }
         let rsn = reason(f["r"].as_i64().unwrap_or(0).max(0) as usize);
         if self.mode.v7 {
-            let token = p7::Token(tok_bytes(tokname).unwrap_or([9, 9, 9, 9]));
-            let rt = p7::Token(tok_bytes(f["rt"].as_str().unwrap_or("W")).unwrap_or([0x57, 0x0b, 0xad, 0x01]));
+            let token = p7::Token(self.tok_for(e, tokname).unwrap_or([9, 9, 9, 9]));
+            let rt = p7::Token(self.tok_for(e, f["rt"].as_str().unwrap_or("W")).unwrap_or([0x57, 0x0b, 0xad, 0x01]));
             let pkt = match f["k"].as_str().unwrap() {
                 "connless" => {
                     let data = content(from, f["id"].as_u64().unwrap() as u32, f["sz"].as_u64().unwrap() as usize);
@@ -929,7 +945,7 @@ impl World {
                 .unwrap()
                 .to_vec()
         } else {
-            let token = if tokname == "no" { None } else { Some(p6::Token(tok_bytes(tokname).unwrap_or([9, 9, 9, 9]))) };
+            let token = if tokname == "no" { None } else { Some(p6::Token(self.tok_for(e, tokname).unwrap_or([9, 9, 9, 9]))) };
             let pkt = match f["k"].as_str().unwrap() {
                 "chunks" => p6::ConnectedPacketType::Chunks(f["rr"].as_bool().unwrap(), n, &payload),
                 _ => p6::ConnectedPacketType::Control(match f["c"].as_str().unwrap() {
